@@ -261,9 +261,11 @@ func (e *Env) Run(idx int, c *Case) []Mismatch {
 		}
 		judge("QueryIdsC", guard(func() ([]string, int64, error) { return st.QueryIdsC(tx, q) }), c.Ids, c.Count, true, true, "C01")
 		q2, _ := ast.Parse(st, text)
-		judge("QueryWithCursorC", guard(func() ([]string, int64, error) {
-			return st.QueryWithCursorC(tx, st.GetEntitiesBucket(tx).OpenCursor, q2)
-		}), c.Ids, c.Count, true, true, "C01")
+		if eb := st.GetEntitiesBucket(tx); eb != nil { // (no entities bucket in a store nothing was ever written to)
+			judge("QueryWithCursorC", guard(func() ([]string, int64, error) {
+				return st.QueryWithCursorC(tx, eb.OpenCursor, q2)
+			}), c.Ids, c.Count, true, true, "C01")
+		}
 		if len(sortSpec) == 0 {
 			q3, _ := ast.Parse(st, text)
 			judge("IterateIds", guard(func() ([]string, int64, error) {
